@@ -9,7 +9,8 @@ Public entry: lower(driver_cpp, roots, config) -> Unit  (see class Unit)
 """
 import json, os, re, subprocess, sys, hashlib
 
-CLANG = ['clang++', '-std=gnu++20', '-DNDEBUG', '-I/repo/src', '-isystem', '/root/miniconda/include',
+REPO = os.environ.get('VERIF_REPO', '/repo')
+CLANG = ['clang++', '-std=gnu++20', '-DNDEBUG', '-I' + REPO + '/src', '-isystem', '/root/miniconda/include',
          '-fsyntax-only', '-Wno-everything']
 
 
